@@ -27,7 +27,8 @@ SHARDS = {'quick': 16, 'thorough': 16}
 NCASES = {'quick': 1600, 'thorough': 50000}
 MIN_NONTRIVIAL = {'quick': 600, 'thorough': 20000}
 TIME_CAP = {'quick': 300, 'thorough': 3600}
-REQUIRED_CLASSES = ['edge:zero-in-other-unit', 'edge:zero-same-dimension', 'edge:zero-offset-temperature', 'edge:zero-other-dimension', 'value-zero', 'value-negative', 'value-positive', 'value-false', 'value-true', 'value-none',
+REQUIRED_CLASSES = ['edge:unit-without-factor', 'edge:nl-temperature', 'edge:nl-level', 'edge:nl-array-1d', 'edge:nl-array-2d', 'edge:nl-scalar',
+                    'edge:nl-array-converted-through-offset-or-logarithm', 'edge:zero-in-other-unit', 'edge:zero-same-dimension', 'edge:zero-offset-temperature', 'edge:zero-other-dimension', 'value-zero', 'value-negative', 'value-positive', 'value-false', 'value-true', 'value-none',
                     'value-empty-string', 'value-string', 'modification-typed', 'modification-untyped',
                     'unit-omitted', 'unit-same-as-definition', 'unit-different-prefix', 'unit-compound', 'unit-custom',
                     'unit-conversion-factor-not-1', 'unitless-node', 'declaration', 'definition',
@@ -110,6 +111,8 @@ def cases(rng, tier, shard, nshards, ctx):
         yield dict(prog=C.gen_case_prog(rng, fl), r=rng.randrange(1 << 30))
         if i % 8 == 0:
             yield dip_edge.gen_c14(rng)
+        if i % 6 == 1:
+            yield dip_edge.gen_c14_nl(rng)
 
 
 # ---------------------------------------------------------------------------------------------- observation
@@ -200,7 +203,7 @@ def jobs(r):
 def run_case(case, ctx):
     if case.get('edge'):
         from vt.props import dip_edge
-        out = dip_edge.run_c14(case, ctx)
+        out = (dip_edge.run_c14_nl if case['edge'] == 'c14-nl' else dip_edge.run_c14)(case, ctx)
         if ctx.get('hyg') is not None and ctx['hyg'].check_restore():
             out['monitors']['table_leaks_restored'] = 1
         return out
